@@ -165,6 +165,10 @@ func (lc *liveConsumer) close() {
 
 // runRelay executes the scenario against a fresh in-process server.
 func runRelay(c *fw.Ctx, sc relayScenario, rng *rand.Rand) (res relayResult) {
+	if sc.Conf.RtmpsOnly {
+		ref.RtmpOverTLS = true
+		defer func() { ref.RtmpOverTLS = false }()
+	}
 	root := filepath.Join(c.Scratch, fmt.Sprintf("relay-%d", c.Index))
 	os.MkdirAll(root, 0755)
 	defer os.RemoveAll(root)
